@@ -3,8 +3,9 @@ from harness import core
 from harness.props import sqlcommon as SC
 
 PID = 'C03'
-THEOREMS = ['PyDBML.C03.script_structure', 'PyDBML.C03.column_pk_component', 'PyDBML.C03.default_component', 'PyDBML.C15.sql_column_ignores_props']
-MODULES = ['PyDBMLProofs.Props.C03']
+THEOREMS = ['PyDBML.C03.read_render_script', 'PyDBML.C03.read_render_table', 'PyDBML.C03.read_render_column', 'PyDBML.C03.same_ddl_same_content',
+            'PyDBML.C03.script_structure', 'PyDBML.C03.column_pk_component', 'PyDBML.C03.default_component', 'PyDBML.C15.sql_column_ignores_props']
+MODULES = ['PyDBMLProofs.Props.C03', 'PyDBMLProofs.Props.C03Read']
 
 
 def kf_replay(f):
@@ -15,21 +16,128 @@ def kf_replay(f):
     return any(r[2] == f['reason'] for r in res)
 
 
+# ---- the proved reader (PyDBMLModel/SqlRead.lean, theorems in C03Read.lean) run on the .sql of the real code ----
+
+NAME_POOL = ['id', 'a', 'b', 'user id', 'Name', 'x1', 'order', 'très', 'a.b', "it's", 'k,', '(p)', ' lead', 'täble', 'n' * 40, '-', '1']
+TYPE_POOL = ['int', 'integer', 'varchar(20)', 'decimal(10,2)', 'text', 'int[]', 'timestamp', 'json', 'my_type', 'CHAR(1)']
+DEFAULTS = [None, None, 0, 1, -7, 10 ** 20, 0.0, 1.5, -0.25, True, False, '', 'x', 'two words', "it's", 'NULL', ('expr', 'now()'),
+            ('expr', 'a + b'), ('expr', ''), ('expr', '(a)'), ('expr', '(a) + (b)'), 'a,', ', b', '(x)']
+
+
+def gen_reader_spec(rng):
+    """tables of the class `Readable` (C03Read.lean): columns with any flags, any default kind, any pk layout; no notes,
+    comments, indexes, references, enums"""
+    nt = rng.choice([1, 1, 2, 3, 4])
+    tables, used = [], set()
+    for _ in range(nt):
+        while True:
+            key = (rng.choice(['public', 'public', 's1', 'my schema']), rng.choice(NAME_POOL))
+            if key not in used:
+                used.add(key)
+                break
+        nc = rng.choice([1, 2, 3, 5])
+        names = rng.sample(NAME_POOL, nc)
+        layout = rng.choice(['none', 'one', 'one', 'many', 'all'])
+        cols = []
+        for i, n in enumerate(names):
+            pk = {'none': False, 'one': i == 0, 'many': i < 2, 'all': True}[layout]
+            cols.append({'name': n, 'type': rng.choice(TYPE_POOL), 'pk': pk, 'autoinc': rng.random() < .3, 'unique': rng.random() < .3,
+                         'not_null': rng.random() < .4, 'default': rng.choice(DEFAULTS)})
+        tables.append({'schema': key[0], 'name': key[1], 'columns': cols})
+    return tables
+
+
+def reader_expect(tables):
+    """what the statement promises, from the generated content alone"""
+    out = []
+    for t in tables:
+        npk = sum(1 for c in t['columns'] if c['pk'])
+        q = '"%s"' % t['name'] if t['schema'] == 'public' else '"%s"."%s"' % (t['schema'], t['name'])
+        cols = []
+        for c in t['columns']:
+            d = c['default']
+            dt = None if d is None else ('(%s)' % d[1] if isinstance(d, tuple) else str(d))
+            cols.append({'name': c['name'], 'type': c['type'], 'pk': c['pk'] and npk <= 1, 'autoinc': c['autoinc'],
+                         'unique': c['unique'], 'not_null': c['not_null'], 'default': dt})
+        out.append({'qname': q, 'cols': cols, 'key': [c['name'] for c in t['columns'] if c['pk']] if npk > 1 else None})
+    return out
+
+
+def reader_job(tables):
+    from pydbml import Database
+    from pydbml.classes import Table, Column, Expression
+    db = Database()
+    for t in tables:
+        tb = Table(t['name'], schema=t['schema'])
+        for c in t['columns']:
+            d = c['default']
+            tb.add_column(Column(c['name'], c['type'], pk=c['pk'], autoinc=c['autoinc'], unique=c['unique'], not_null=c['not_null'],
+                                 default=Expression(d[1]) if isinstance(d, tuple) else d))
+        db.add(tb)
+    try:
+        return ['ok', db.sql]
+    except Exception as e:       # noqa
+        return ['exc', type(e).__name__]
+
+
+def part_reader(ctx, drv):
+    if drv is None:
+        ctx.notes.append('reader part skipped: no driver')
+        return
+    n = 300 if ctx.tier == 'quick' else 3000
+    specs = [gen_reader_spec(ctx.rng) for _ in range(n)]
+    res = core.pmap(reader_job, specs)
+    read = drv.ask_many({'op': 'readsql', 'text': r[1] if r[0] == 'ok' else ''} for r in res)
+    for tables, r, m in zip(specs, res, read):
+        ctx.case(core.h(tables), True)
+        ctx.count('reader:tables=%d' % len(tables))
+        ctx.count('reader:pk-layouts=' + ','.join(sorted({str(min(2, sum(1 for c in t['columns'] if c['pk']))) for t in tables})))
+        case = {'op': 'readsql', 'tables': tables}
+        if r[0] != 'ok':
+            ctx.fail('db.sql of plain tables raises', case, detail=r[1])
+            continue
+        exp = reader_expect(tables)
+        got = m.get('ok')
+        if got != exp:
+            ctx.fail('the proved DDL reader does not read from db.sql what the model holds (C03Read.read_render_script)', case,
+                     detail={'expected': exp, 'read': got}, sql=r[1])
+
+
 def main(tier, seed):
     ctx = core.Ctx(PID, tier, seed, 'translation_validation', THEOREMS, MODULES)
-    problems = SC.run_sql_check(ctx, PID)
+    problems = SC.run_sql_check(ctx, PID, extra_parts=part_reader)
     return ctx.finish(
         rule='random databases without references (1-6 tables in up to 3 schemas, 1-5 columns with the full product of flags, '
              '5 default kinds incl. falsy ones, enum-typed columns, 0-3 indexes incl. pk/composite/expression, notes, comments); '
              'every third spec wild (quotes, braces, blanks in names). Non-trivial: >=1 table and >=2 features; distinct by dump hash',
         explanation='Correspondence of db.sql and of every enum/column/index element rendering with the Lean model of the '
                     'default SQL renderer; oracle: db.sql read back by an independent tokenising DDL reader and compared with '
-                    'expectations computed from the content (types, tables exactly once, columns, keys, indexes, COMMENT ON).',
+                    'expectations computed from the content (types, tables exactly once, columns, keys, indexes, COMMENT ON). '
+                    'Theorems read_render_column / read_render_table / read_render_script / same_ddl_same_content (C03Read.lean): a '
+                    'reader of the DDL written in Lean (PyDBMLModel/SqlRead.lean, looks at the text only) inverts the renderer model on '
+                    'tables without notes, comments and indexes - every column in order with name, type, PRIMARY KEY / AUTOINCREMENT / '
+                    'UNIQUE / NOT NULL exactly when set, DEFAULT whenever set, one table-level key clause exactly for several key columns, '
+                    'each table once and nothing else. The same reader (driver op readsql) is run on db.sql of the real code for '
+                    'API-built tables of that class (all flag combinations, 20 default shapes, four pk layouts, three schemas, odd names) '
+                    'and must read exactly the generated content.',
         assumptions=['oracle runs on reader-hygienic specs (names without double quote, simple types/defaults)'],
         trusted_base=['Lean 4.33 kernel', 'hand-written model PyDBMLModel/RenderSql.lean tied by this correspondence',
-                      'harness/ddl_reader.py', 'harness/sql_oracle.py'],
+                      'harness/ddl_reader.py', 'harness/sql_oracle.py',
+                      'PyDBMLModel/SqlRead.lean (the reader: a specification artefact, proved against the model, run against the code)'],
         kf_replay=kf_replay, proof_problems=problems)
 
 
 def replay(path):
+    import json
+    c = json.load(open(path)).get('case', {})
+    if c.get('op') == 'readsql':
+        from harness.driver import Driver
+        r = reader_job(c['tables'])
+        print('impl sql:', r)
+        with Driver() as d:
+            got = d.ask({'op': 'readsql', 'text': r[1] if r[0] == 'ok' else ''})
+        exp = reader_expect(c['tables'])
+        print('read    :', got.get('ok'))
+        print('expected:', exp)
+        return 0 if got.get('ok') == exp else 1
     return SC.replay_sql(path, PID)
